@@ -939,7 +939,8 @@ func (sp *StreamParser) ExecCmd(cb RdbObjExecutor) {
 					}
 					return uint64(SCG_INVALID_ENTRIES_READ)
 				}()
-				xgcArgs = append(xgcArgs, "ENTRIESREAD", cgOffset)
+				// SCG_INVALID_ENTRIES_READ must be sent as -1, redis parses the argument as a signed integer
+				xgcArgs = append(xgcArgs, "ENTRIESREAD", int64(cgOffset))
 			}
 		}
 
